@@ -146,7 +146,7 @@ def parse_race_logs(prefix):
             for st in stacks[:2]:
                 fn = None
                 for line in st.splitlines():
-                    m = re.match(r"^\s+(github\.com/NethermindEth/juno/[^\s(]+)", line)
+                    m = re.match(r"^\s+(github\.com/NethermindEth/juno/\S+)\(", line)
                     if m and "/verifh/" not in m.group(1):
                         fn = m.group(1)
                         break
